@@ -33,12 +33,28 @@ class _T:
         self.last_label = None
 
 
+_AFTER_CALL = {}
+
+
+def _after_call_offsets(code):
+    s = _AFTER_CALL.get(code)
+    if s is None:
+        import dis
+        s, prev = set(), False
+        for ins in dis.get_instructions(code):
+            if prev:
+                s.add(ins.offset)
+            prev = ins.opname in ("CALL", "CALL_FUNCTION_EX", "CALL_KW")
+        _AFTER_CALL[code] = s
+    return s
+
+
 class Deadlock(Exception):
     pass
 
 
 class Scheduler:
-    def __init__(self, choices=(), horizon=5000, watchdog=10.0, line_root=None):
+    def __init__(self, choices=(), horizon=5000, watchdog=10.0, line_root=None, after_calls=False):
         self.choices = list(choices)
         self.ci = 0
         self.threads = []
@@ -53,15 +69,26 @@ class Scheduler:
         self.deadlock = None
         self._abort = False
         self.line_root = line_root     # when set: every source line executed under this path is a scheduling point
+        # additionally: the instruction after every call inside a line (where CPython checks its eval breaker and a real
+        # thread switch can happen between a call's return and the use of its result)
+        self.after_calls = after_calls
+        self._last_line_at = None
 
     def _tracer(self, frame, event, arg):
         if frame.f_code.co_filename.startswith(self.line_root):     # a path prefix or a tuple of prefixes
+            if self.after_calls:
+                frame.f_trace_opcodes = True
             return self._local_trace
         return None
 
     def _local_trace(self, frame, event, arg):
-        if event == "line" and not self._abort and self.controlled():
-            self.point(("line", frame.f_code.co_name, frame.f_lineno))
+        if event == "line":
+            if not self._abort and self.controlled():
+                self._last_line_at = (id(frame), frame.f_lasti)
+                self.point(("line", frame.f_code.co_name, frame.f_lineno))
+        elif event == "opcode" and frame.f_lasti in _after_call_offsets(frame.f_code):
+            if not self._abort and self.controlled() and self._last_line_at != (id(frame), frame.f_lasti):
+                self.point(("after-call", frame.f_code.co_name, frame.f_lineno, frame.f_lasti))
         return self._local_trace
 
     # -- harness side
@@ -222,7 +249,7 @@ def interpose(cls, names):
 
 
 def explore_schedules(harness, bound, max_exec=None, on_exec=None, horizon=5000, first_dev_range=None,
-                      deviation_cost="preemption", line_root=None):
+                      deviation_cost="preemption", line_root=None, after_calls=False):
     """DFS over schedules with at most ``bound`` preemptions.
 
     ``harness()`` must create a fresh world + scheduler-independent objects and
@@ -237,7 +264,7 @@ def explore_schedules(harness, bound, max_exec=None, on_exec=None, horizon=5000,
     while stack:
         prefix, _ = stack.pop()
         simenv.new_world()
-        s = Scheduler(prefix, horizon=horizon, line_root=line_root)
+        s = Scheduler(prefix, horizon=horizon, line_root=line_root, after_calls=after_calls)
         result = harness(s)
         s.run()
         out = result()
